@@ -43,6 +43,12 @@ def _quiet_package_logging():
 
 
 _quiet_package_logging()
+try:   # kill -USR1 <pid> dumps the Python stack of a check (or of one of its workers) to stderr: for diagnosing a slow run
+    import faulthandler
+    import signal as _signal
+    faulthandler.register(_signal.SIGUSR1, all_threads=True)
+except Exception:  # noqa: BLE001
+    pass
 
 
 def build_loader():
@@ -132,7 +138,7 @@ def native_replay(oset_name, inputs, search_seed=None):
     env["PYTHONPATH"] = REPO + os.pathsep + VERIF + os.pathsep + env.get("PYTHONPATH", "")
     try:
         out = subprocess.run([sys.executable, "-m", "pyvc.replay", "-"], input=payload, capture_output=True, text=True,
-                             timeout=300, env=env, cwd=VERIF)
+                             timeout=150, env=env, cwd=VERIF)
         last = [l for l in out.stdout.splitlines() if l.startswith("{")]
         if not last:
             return {"reproduced": False, "note": "replay produced no result: " + (out.stderr or out.stdout)[-400:]}
@@ -309,11 +315,18 @@ def main(argv=None):
     lines = []
     for full, kf in known_hits:
         lines.append(f"KNOWN-FINDING: property={prop} {kf['what']} [{full}]")
-    for rj, name, ob in violations:
-        rp = _write_replay(prop, rj, name, ob, seed)
-        tail = "" if rp[1] else " no-failing-input-found"
-        lines.append(f"VIOLATION property={prop} replay={rp[0]}{tail}")
-        exit_code = 1
+    # native replays run side by side and under one wall-clock budget: a change that breaks many obligations (or makes
+    # the real code spin) must not turn the report into an hour of replays
+    if violations:
+        import concurrent.futures as _cf
+        deadline = time.time() + float(os.environ.get("PYVC_REPLAY_BUDGET_S", "240"))
+        with _cf.ThreadPoolExecutor(max_workers=8) as ex:
+            futs = [ex.submit(_write_replay, prop, rj, name, ob, seed, deadline) for rj, name, ob in violations]
+            for f in futs:
+                rp = f.result()
+                tail = "" if rp[1] else " no-failing-input-found"
+                lines.append(f"VIOLATION property={prop} replay={rp[0]}{tail}")
+                exit_code = 1
     if exit_code == 0 and errors:
         exit_code = 3
     if exit_code == 0 and undecided:
@@ -545,7 +558,7 @@ def _match_known(known, prop, oset_name, obligation):
     return None
 
 
-def _write_replay(prop, rj, name, ob, seed):
+def _write_replay(prop, rj, name, ob, seed, deadline=None):
     d = os.path.join(OUT, "replays", prop)
     os.makedirs(d, exist_ok=True)
     slug = hashlib.sha1(f"{rj['name']}::{name}".encode()).hexdigest()[:10]
@@ -556,14 +569,17 @@ def _write_replay(prop, rj, name, ob, seed):
            "detail": ob.get("detail")}
     reproduced = False
     res = None
-    if ob.get("model") is not None:
+    late = deadline is not None and time.time() > deadline
+    if late:
+        res = {"reproduced": False, "note": "not replayed: the replay budget of this run was used up by earlier replays"}
+    if ob.get("model") is not None and not late:
         res = native_replay(rj["name"], ob["model"])
         reproduced = bool(res.get("reproduced"))
         # if the obligation can be evaluated natively, it is this obligation that has to fail
         if reproduced and name in res.get("checked_names", []) and name not in res.get("failed", []):
             reproduced = False
             res["note"] = "other obligations failed natively, but not the one the verifier refuted"
-    if not reproduced:
+    if not reproduced and not (deadline is not None and time.time() > deadline):
         res2 = native_replay(rj["name"], None, search_seed=seed)
         if res2.get("reproduced"):
             res = res2
